@@ -886,6 +886,47 @@ def check_counter_loop(F, run, b, loop):
               "exhausting the iteration cap does not return Err")
 
 
+def check_brent_safeguards(F, run, b, loop):
+    """R7.12 — Brent's evaluation bound rests on its safeguards: the interpolated point is replaced by the midpoint whenever the standard
+    Brent–Dekker test demands it (s outside ((3a+b)/4, b); after a bisection: |s−b| ≥ |b−c|/2 or |b−c| < tol; after an interpolation:
+    |s−b| ≥ |c−d|/2 or |c−d| < tol).  The code's condition may be *more* conservative (bisect more often), never less: for both values of
+    the flag, the standard test must entail the code's test (linear arithmetic with case splits on the magnitudes)."""
+    dp = FNS["brent"]
+    # the safeguard: the `if` inside the loop whose `then` branch sets the flag and whose `else` (or fall-through) clears it
+    cands = []
+    for n in walk(loop["body"], into_closures=False):
+        if n.get("k") == "If" and any(x.get("k") == "Assign" and peel(x["l"]).get("k") == "Local" and peel(x["l"]).get("name") == "mflag" and peel(x["r"]).get("v") == "true"
+                                      for x in walk(n["t"], into_closures=False)):
+            cands.append(n)
+    if len(cands) != 1:
+        run.broken("R7.12", dp, "safeguard-site", F.loc(b, loop), "expected one `if` that sets mflag in the loop, found %d" % len(cands))
+        return
+    site = cands[0]
+    left, right, c_, d_, s_, tol = (sp.Symbol(nm, real=True) for nm in ("left", "right", "c", "d", "s", "tol"))
+    vals = dict(constant_locals(F, b))
+    for flag in (True, False):
+        v = dict(vals)
+        v.update({"left": left, "right": right, "c": c_, "d": d_, "s": s_, "tol": tol, "mflag": sp.true if flag else sp.false})
+        try:
+            ps = paths.explore(F, b, setup=preset_all(b, v), node=site["c"], interp_cls=guards.GInterp)
+        except sym.Unsupported as u:
+            run.broken("R7.12", dp, "safeguard-condition", F.loc(b, site), "cannot evaluate the safeguard condition: %s" % u)
+            return
+        if len(ps) != 1 or not isinstance(ps[0].result, sp.Basic):
+            run.broken("R7.12", dp, "safeguard-condition", F.loc(b, site), "the safeguard condition branches or is not a formula")
+            return
+        code = ps[0].result
+        in_range = sp.Or(sp.And(s_ >= (3 * left + right) / 4, s_ <= right), sp.And(s_ <= (3 * left + right) / 4, s_ >= right))
+        prev = sp.Abs(right - c_) if flag else sp.Abs(c_ - d_)
+        std = [("outside-range", sp.Not(in_range)), ("step-not-halved", sp.Abs(s_ - right) >= prev / 2), ("previous-step-below-tol", prev < tol)]
+        for nm, clause in std:
+            good = logic.lin_entails(clause, code)
+            run.check(good, "R7.12", dp, "bisects-when-%s:%s" % (nm, "after-bisection" if flag else "after-interpolation"), F.loc(b, site),
+                      "Brent's safeguard `%s` (%s) does not force a bisection step: the condition under mflag = %s is %s — without it the iteration can settle into a long run of "
+                      "interpolation steps and the bound on the number of function evaluations is lost" % (clause, nm, flag, str(code)[:160]),
+                      sample="mflag=%s: %s ⟹ bisect" % (flag, nm))
+
+
 def run(F, run, tier):
     n_nan = 0
     for name, path in FNS.items():
@@ -918,6 +959,7 @@ def run(F, run, tier):
             check_itp_orientation(F, run, b, loop)
         if name == "brent":
             check_brent_return(F, run, b)
+            check_brent_safeguards(F, run, b, loop)
     n_nan = check_nan_idiom(F, run)
     check_sign_three_way(F, run)
     run.extra["sign_by_division_sites"] = n_nan
